@@ -795,4 +795,90 @@ theorem toEntry_succ (env : Env) (fuel : Nat) (root : Mod) (scope : List Stmt) (
       toEntryBody env fuel (toEntry env fuel) root scope n visiting st := by
   rfl
 
+/-! ### what the steps of `toEntry` keep of the node under construction -/
+
+/-- Name, kind and child-map presence of the node are kept. -/
+def RootKeep (a b : Entry) : Prop := b.d.name = a.d.name ∧ b.d.kind = a.d.kind ∧ b.d.hasDir = a.d.hasDir
+
+theorem RootKeep.refl (a : Entry) : RootKeep a a := ⟨rfl, rfl, rfl⟩
+theorem RootKeep.trans {a b c : Entry} (h1 : RootKeep a b) (h2 : RootKeep b c) : RootKeep a c :=
+  ⟨h2.1.trans h1.1, h2.2.1.trans h1.2.1, h2.2.2.trans h1.2.2⟩
+
+theorem rootKeep_withD (e : Entry) (f : EData → EData)
+    (hf : ∀ d, (f d).name = d.name ∧ (f d).kind = d.kind ∧ (f d).hasDir = d.hasDir) : RootKeep e (e.withD f) := by
+  cases e with | mk d c i o => exact hf d
+
+theorem rootKeep_addErr (e : Entry) (x : Err) : RootKeep e (e.addErr x) := rootKeep_withD _ _ (fun d => ⟨rfl, rfl, rfl⟩)
+theorem rootKeep_addErrs (e : Entry) (xs : List Err) : RootKeep e (e.addErrs xs) := rootKeep_withD _ _ (fun d => ⟨rfl, rfl, rfl⟩)
+theorem rootKeep_importErrors (e c : Entry) : RootKeep e (e.importErrors c) := rootKeep_addErrs _ _
+theorem rootKeep_withDir (e : Entry) (c : List Entry) : RootKeep e (e.withDir c) := by
+  cases e with | mk d c i o => exact ⟨rfl, rfl, rfl⟩
+
+theorem rootKeep_add (e : Entry) (k : String) (v : Entry) : RootKeep e (e.add k v) := by
+  unfold Entry.add; split
+  · exact rootKeep_addErr _ _
+  · exact rootKeep_withDir _ _
+
+theorem rootKeep_merge (e : Entry) (ns : Option String) (oe : Entry) : RootKeep e (e.merge ns oe) := by
+  unfold Entry.merge
+  refine foldl_inv (fun x => RootKeep e x) _ _ _ (rootKeep_importErrors _ _) ?_
+  intro b a _ hb
+  dsimp only
+  split
+  · exact hb.trans (rootKeep_addErr _ _)
+  · exact hb.trans (rootKeep_withDir _ _)
+
+theorem rootKeep_foldl {α} (g : Entry × TState → α → Entry × TState) (l : List α) (acc : Entry × TState)
+    (h : ∀ acc a, RootKeep acc.1 (g acc a).1) : RootKeep acc.1 (l.foldl g acc).1 :=
+  foldl_inv (fun x => RootKeep acc.1 x.1) g l acc (RootKeep.refl _) (fun b a _ hb => hb.trans (h b a))
+
+theorem rootKeep_setRpc (e : Entry) (i o : List Entry → List Entry) :
+    RootKeep e (match e with | .mk d c i' o' => .mk { d with isRpc := true } c (i i') (o o')) := by
+  cases e with | mk d c i o => exact ⟨rfl, rfl, rfl⟩
+
+theorem rootKeep_withD_addErrs (e : Entry) (f : EData → EData) (xs : List Err)
+    (hf : ∀ d, (f d).name = d.name ∧ (f d).kind = d.kind ∧ (f d).hasDir = d.hasDir) :
+    RootKeep e ((e.withD f).addErrs xs) := (rootKeep_withD e f hf).trans (rootKeep_addErrs _ _)
+
+theorem rootKeep_withD2_addErrs (e : Entry) (f g : EData → EData) (xs : List Err)
+    (hf : ∀ d, (f d).name = d.name ∧ (f d).kind = d.kind ∧ (f d).hasDir = d.hasDir)
+    (hg : ∀ d, (g d).name = d.name ∧ (g d).kind = d.kind ∧ (g d).hasDir = d.hasDir) :
+    RootKeep e (((e.withD f).withD g).addErrs xs) :=
+  (rootKeep_withD e f hf).trans ((rootKeep_withD _ g hg).trans (rootKeep_addErrs _ _))
+
+theorem rootKeep_stepFn (env : Env) (rec : Rec) (root : Mod) (n : Stmt) (sub : List Stmt) (visiting : List NodeId)
+    (isMod : Bool) (acc : Entry × TState) (f : String) :
+    RootKeep acc.1 (stepFn env rec root n sub visiting isMod acc f).1 := by
+  obtain ⟨e, st⟩ := acc
+  have hw : ∀ (x : Entry) (f : EData → EData), (∀ d, (f d).name = d.name ∧ (f d).kind = d.kind ∧ (f d).hasDir = d.hasDir) →
+      RootKeep x (x.withD f) := rootKeep_withD
+  unfold stepFn
+  dsimp only
+  split
+  all_goals try dsimp only
+  all_goals first
+    | exact RootKeep.refl _
+    | exact rootKeep_withD_addErrs _ _ _ (fun d => ⟨rfl, rfl, rfl⟩)
+    | (unfold addAllFn; refine rootKeep_foldl _ _ (e, st) ?_; intro acc a; exact rootKeep_add _ _ _)
+    | (refine rootKeep_foldl _ _ (e, st) ?_; intro acc a; try dsimp only
+       first
+         | exact rootKeep_add _ _ _
+         | exact rootKeep_importErrors _ _
+         | exact rootKeep_merge _ _ _
+         | (split <;> first | exact rootKeep_importErrors _ _ | exact (rootKeep_importErrors _ _).trans (rootKeep_addErr _ _))
+         | (repeat' split
+            all_goals try dsimp only
+            all_goals first
+              | exact RootKeep.refl _
+              | exact rootKeep_addErr _ _
+              | exact rootKeep_merge _ _ _))
+    | (repeat' split
+       all_goals try dsimp only
+       all_goals first
+         | exact RootKeep.refl _
+         | exact rootKeep_addErr _ _
+         | exact rootKeep_withD _ _ (fun d => ⟨rfl, rfl, rfl⟩)
+         | exact rootKeep_withD2_addErrs _ _ _ _ (fun d => ⟨rfl, rfl, rfl⟩) (fun d => ⟨rfl, rfl, rfl⟩)
+         | exact ⟨rfl, rfl, rfl⟩)
+
 end Goyang.Lemmas.Tree
